@@ -6,8 +6,8 @@
    events (dial result, write progress, response head, body, peer close, timer, the caller's
    context ending at any position) and scheduling choices (which ready select case is taken). *)
 From Coq Require Import List.
-From ReqV Require Import Model.Lifecycle Model.LifecycleH2 Model.RetryLife Proofs.Reach Proofs.LifecycleProofs
-  Proofs.LifecycleThms Proofs.LifecycleH2Proofs Proofs.RetryLifeProofs.
+From ReqV Require Import Model.Lifecycle Model.LifecycleH2 Model.LifecycleH3 Model.RetryLife Proofs.Reach
+  Proofs.LifecycleProofs Proofs.LifecycleThms Proofs.LifecycleH2Proofs Proofs.LifecycleH3Proofs Proofs.RetryLifeProofs.
 Import ListNotations.
 
 (* HTTP/1.1: wherever the context ended, once everything has settled the caller holds an error
@@ -87,6 +87,45 @@ Theorem C08_h2_rst_iff_open_stream : forall hb s, reach2 hb s -> settled2 hb s =
   (hb = true -> bclosed2 s = true) /\ donec2 s = true.
 Proof. exact h2_rst_iff_open_stream. Qed.
 Print Assumptions C08_h2_rst_iff_open_stream.
+
+(* ---- HTTP/3 (RoundTripOpt + SingleDestinationRoundTripper.roundTrip + response body), current code ---- *)
+
+Theorem C08_h3_errors_identify : forall c s, reach3 true c s ->
+  (forall e, c3 s = C3Ret (CErr e) -> exists cs, ctx3 s = Some cs /\ e = ECause cs) /\
+  (forall e, pipe3 s = BErr e -> exists cs, ctx3 s = Some cs /\ e = ECause cs).
+Proof. exact h3_errors_identify. Qed.
+Print Assumptions C08_h3_errors_identify.
+
+Theorem C08_h3_cancel_progress : forall c s, reach3 true c s -> ended3 s = true -> returned3 s = false ->
+  exists l, In l internals3 /\ step3 true c s l <> None.
+Proof. exact h3_cancel_progress. Qed.
+Print Assumptions C08_h3_cancel_progress.
+
+(* settled after the context ended: cancel goroutine and dial goroutine gone, request body closed,
+   the next request on the host unaffected, outcome = the cause, or the response (complete, or
+   its body read failing with the cause after the stream was cancelled towards the peer) *)
+Theorem C08_h3_cancel_anywhere : forall c s, reach3 true c s -> ended3 s = true -> settled3 c s = true ->
+  cg3 s = false /\ d3 s <> D3Running /\ (c3_body c = true -> bclosed3 s = true) /\
+  follow_ok true s = true /\
+  ((exists e cs, c3 s = C3Ret (CErr e) /\ ctx3 s = Some cs /\ e = ECause cs) \/
+   (exists b, c3 s = C3Ret (CResp b) /\
+      ((exists e cs, pipe3 s = BErr e /\ ctx3 s = Some cs /\ e = ECause cs /\ scancel s = true) \/
+       pipe3 s = BEOF \/ (pipe3 s = BNone /\ b = false)))).
+Proof. exact h3_cancel_anywhere. Qed.
+Print Assumptions C08_h3_cancel_anywhere.
+
+(* the pinned HTTP/3 code: a cancelled dial fails the next request and leaves the body open; a
+   pending body read fails with an error that is not the cause *)
+Theorem C08_h3_pinned_poisons_next_request :
+  exists s, run3 false (mkCfg3 false true) (init3 (mkCfg3 false true)) [ZCancel CCanceled; LWaitCtx; LDialCtx] = Some s /\
+            follow_ok false s = false /\ bclosed3 s = false /\ c3 s = C3Ret (CErr (ECause CCanceled)).
+Proof. exact h3_pinned_poisons_next_request. Qed.
+
+Theorem C08_h3_pinned_body_error_not_cause :
+  exists s, run3 false (mkCfg3 true false) (init3 (mkCfg3 true false))
+              [LProceed; ZHdrSent; ZResp true; ZCancel CDeadline; LCancelG; LBodyFail] = Some s /\
+            pipe3 s = BErr EOther.
+Proof. exact h3_pinned_body_error_not_cause. Qed.
 
 (* ---- retry layer (Request.do), all label sequences, any retry limit ---- *)
 
